@@ -110,6 +110,8 @@ struct Node {
     size: u64,
     ino: u64,
     tok: String,
+    mode: u32,
+    mtime: (i64, i64),
 }
 
 fn snapshot(root: &Path, rel: &mut Vec<String>, out: &mut BTreeMap<Vec<String>, Node>) {
@@ -135,7 +137,10 @@ fn snapshot(root: &Path, rel: &mut Vec<String>, out: &mut BTreeMap<Vec<String>, 
         } else {
             ('o', String::new())
         };
-        out.insert(rel.clone(), Node { kind, size: if kind == 'd' { 0 } else { md.size() }, ino: md.ino(), tok: tokv });
+        out.insert(
+            rel.clone(),
+            Node { kind, size: if kind == 'd' { 0 } else { md.size() }, ino: md.ino(), tok: tokv, mode: md.mode(), mtime: (md.mtime(), md.mtime_nsec()) },
+        );
         if kind == 'd' {
             snapshot(root, rel, out);
         }
@@ -191,12 +196,29 @@ fn rename(c: &str) -> String {
     }
     c.to_string()
 }
+/// inverse of `rename` (the generator's decoy paths use the renamed spelling)
+fn unrename(c: &str) -> String {
+    if let Some(t) = c.strip_prefix("C:f#") {
+        return format!("C:f{t}");
+    }
+    if let Some(t) = c.strip_prefix("a#") {
+        return format!("a{t}");
+    }
+    if let Some(t) = c.strip_prefix("U#") {
+        return format!("\u{fc}{t}");
+    }
+    if let Some(t) = c.strip_prefix("L#") {
+        return format!("{}{}", "L".repeat(255 - t.len()), t);
+    }
+    c.to_string()
+}
 fn rpath(p: &[String]) -> Value {
     Value::Array(p.iter().map(|c| Value::String(rename(c))).collect())
 }
 
 struct RunOut {
     exit: i64,
+    #[allow(dead_code)]
     stdout: String,
     stderr: String,
 }
@@ -273,7 +295,20 @@ fn one_run(cli: &Path, base: &Path, case_id: &str, case: &Value, names: &[AName]
     if preout {
         std::fs::create_dir_all(&out).unwrap();
     }
-    let skip = rng.chance(1, 2);
+    let skip = match case.get("skipmode").and_then(|x| x.as_str()).unwrap_or("rand") {
+        "on" => {
+            let _ = rng.chance(1, 2);
+            true
+        }
+        "off" => {
+            let _ = rng.chance(1, 2);
+            false
+        }
+        _ => rng.chance(1, 2),
+    };
+    // unreadable entries: listed (or requested) but absent, or stored data corrupted; in a packed archive every fourth entry
+    let entries = case.get("entries").and_then(|x| x.as_str()).unwrap_or("present").to_string();
+    let class_of = |i: usize| -> &str { if entries != "present" && (names.len() == 1 || i % 4 == 1) { entries.as_str() } else { "present" } };
     let threads = *rng.pick(&[0usize, 1, 2]);
     let outform = *rng.pick(&["rel", "abs", "dotrel", "trail"]);
 
@@ -297,6 +332,22 @@ fn one_run(cli: &Path, base: &Path, case_id: &str, case: &Value, names: &[AName]
         decoys += 1;
     }
 
+    // decoys placed by the generator where the unguarded deviation would write (outside out)
+    for d in case.get("decoys").and_then(|x| x.as_array()).cloned().unwrap_or_default() {
+        let comps: Vec<String> = d.as_array().map(|a| a.iter().map(|c| unrename(c.as_str().unwrap_or(""))).collect()).unwrap_or_default();
+        if comps.is_empty() {
+            continue;
+        }
+        let path = comps.iter().fold(w.clone(), |p, c| p.join(c));
+        if let Some(par) = path.parent() {
+            let _ = std::fs::create_dir_all(par);
+        }
+        if !path.exists() {
+            let _ = std::fs::write(&path, b"decoy placed by the model");
+            decoys += 1;
+        }
+    }
+
     // archives: every distinct entry (MPQ names are case-insensitive and / = \) once; listfile verbatim
     let build = |path: &Path, pick: &dyn Fn(usize) -> bool, salt: &str| -> String {
         let mut b = ArchiveBuilder::new();
@@ -308,15 +359,44 @@ fn one_run(cli: &Path, base: &Path, case_id: &str, case: &Value, names: &[AName]
             }
             lst.push_str(c);
             lst.push_str("\r\n");
+            if class_of(i) == "absent" {
+                continue; // listed / requested, not stored
+            }
             if seen.insert(mpq_key(c)) {
-                b = b.add_file_data(format!("c11 {salt} {case_id} {i} {seed}").into_bytes(), c);
+                // corrupt entries get compressible data so that ruining the stored bytes makes the read fail
+                let data = if class_of(i) == "corrupt" { format!("c11 corrupt {i} ").repeat(40).into_bytes() } else { format!("c11 {salt} {case_id} {i} {seed}").into_bytes() };
+                b = b.add_file_data(data, c);
             }
         }
         let lf = path.with_extension("lst");
         std::fs::write(&lf, lst.as_bytes()).unwrap();
         b = b.listfile_option(ListfileOption::External(lf));
         match guarded(|| b.build(path)) {
-            Outcome::Done(Ok(())) => "ok".into(),
+            Outcome::Done(Ok(())) => {
+                // ruin the stored data of the corrupt entries
+                let targets: Vec<(usize, usize)> = match wow_mpq::Archive::open(path) {
+                    Ok(ar) => concrete
+                        .iter()
+                        .enumerate()
+                        .filter(|(i, _)| pick(*i) && class_of(*i) == "corrupt")
+                        .filter_map(|(_, c)| ar.find_file(c).ok().flatten().map(|f| (f.file_pos as usize, f.compressed_size as usize)))
+                        .collect(),
+                    Err(_) => Vec::new(),
+                };
+                if !targets.is_empty() {
+                    if let Ok(mut bytes) = std::fs::read(path) {
+                        for (st, len) in targets {
+                            if len > 1 && st + len <= bytes.len() {
+                                for x in bytes[st + 1..st + len].iter_mut() {
+                                    *x = 0xFF;
+                                }
+                            }
+                        }
+                        let _ = std::fs::write(path, bytes);
+                    }
+                }
+                "ok".into()
+            }
             Outcome::Done(Err(e)) => format!("err:{}", variant_name(&e)),
             Outcome::Panic(m) => format!("panic:{m}"),
             Outcome::Hang => "hang".into(),
@@ -390,8 +470,11 @@ fn one_run(cli: &Path, base: &Path, case_id: &str, case: &Value, names: &[AName]
                 touched.push(rpath(p));
             }
             Some(b) => {
-                // a directory's mtime changes when children appear; only identity / content changes count
-                if b.kind != nd.kind || b.ino != nd.ino || (nd.kind != 'd' && (b.size != nd.size || b.tok != nd.tok)) {
+                // identity, permissions, content, and (files) mtime; a directory's mtime changes exactly when children
+                // appear / disappear, which is reported through those children
+                if b.kind != nd.kind || b.ino != nd.ino || b.mode != nd.mode
+                    || (nd.kind != 'd' && (b.size != nd.size || b.tok != nd.tok || b.mtime != nd.mtime))
+                {
                     modified.push(jpath(p));
                     touched.push(rpath(p));
                 }
@@ -411,9 +494,9 @@ fn one_run(cli: &Path, base: &Path, case_id: &str, case: &Value, names: &[AName]
         }
     }
     let err_tail: String = r.stderr.lines().rev().find(|l| l.contains("Error")).map(normalise_digits).unwrap_or_default();
-    let names_json: Vec<Value> = names.iter().map(|n| json!({"c": n.c, "s": n.s})).collect();
+    let names_json: Vec<Value> = names.iter().enumerate().map(|(i, n)| json!({"c": n.c, "s": n.s, "r": class_of(i)})).collect();
     let reset = json!({"ev":"Reset","case":case_id,"preserve":o.preserve,"chain":o.chain,"explicit":o.explicit,
-        "hasroot":gb(case,"hasroot"),"hasparent":gb(case,"hasparent"),"selferr":gb(case,"selferr"),"n":n});
+        "hasroot":gb(case,"hasroot"),"hasparent":gb(case,"hasparent"),"selferr":gb(case,"selferr"),"n":n,"entries":entries});
     let ev = json!({"ev":"Extract","case":case_id,"preserve":o.preserve,"chain":o.chain,"explicit":o.explicit,
         "skip":skip,"threads":threads,"outform":outform,"preout":preout,"decoys":decoys,"built":built,
         "names":names_json,"out":OUT_REL,"exit":r.exit,"created":created,"modified":modified,"removed":removed,
@@ -449,7 +532,8 @@ fn main() {
         let names = parse_names(c);
         let (mut evs, exit) = one_run(&cli, &scratch.path, &id, c, &names, &o, seed);
         // a multi-name run that stopped early may not have tried every name: give each its own run
-        if exit != 0 && names.len() > 1 {
+        let error_case = c.get("entries").and_then(|x| x.as_str()).unwrap_or("present") != "present";
+        if exit != 0 && names.len() > 1 && !error_case {
             for (k, n) in names.iter().enumerate() {
                 let (e2, _) = one_run(&cli, &scratch.path, &format!("{id}.{k}"), c, std::slice::from_ref(n), &o, seed);
                 evs.extend(e2);
